@@ -265,6 +265,16 @@ theorem C12_shared_task_has_callers_key (fns : List FnDecl) (ops : List Op) (c :
 theorem C12_thread_end_noop (fns : List FnDecl) (s : St) (th : Nat) :
     step fns s (.threadEnd th) = (s, .unit) := rfl
 
+/-- (holds by construction of the model, like `C12_thread_end_noop`: an event of another feature - the function used in
+    asyncio mode, a debug / profiling option switched in mid-flight, asynq.mock.patch entered and left, a copy of a
+    receiver or of a bound wrapper, a garbage collection - has no code path into `DeduplicateDecorator.tasks`; the
+    correspondence ties it to the code: `outside` observations carry `len(tasks)` and are followed by ordinary calls.
+    Its consequences ARE theorems: `outside` events are operations of the histories that `C12_spec_holds_partial`,
+    `C12_entry_kept_while_calm`, `C12_one_creation_per_period`, `C12_shared_while_calm`, `C12_body_starts_once`
+    quantify over; see `C12_inflight_survives_outside`.) -/
+theorem C12_outside_noop (fns : List FnDecl) (s : St) (n : Nat) :
+    step fns s (.outside n) = (s, .unit) := rfl
+
 /-- **no capacity**: the entry of a key survives ANY NUMBER of operations that work on other keys (calls that create
     arbitrarily many other in-flight tasks, dirty() and completions of other keys, scheduling of any task, ends of
     threads) -/
@@ -541,5 +551,121 @@ example := C12_instances_disjoint mD { fn := 0, recv := .inst 100, args := [1], 
   { fn := 0, recv := .inst 101, args := [1], kw := [], th := 0 } 100 101
   [.v 100, .v 1] [.v 101, .v 1] rfl rfl rfl (by decide) (by decide) (by decide)
 example : (step cexFns (finalState cexFns St.init [.call cexCall]) (.call cexCall)).2 = .ret 0 false := by decide
+
+/-! ## feature interactions: events of other features, and one decorator object applied to several functions -/
+
+def isForeign : Op → Bool
+  | .outside _ | .threadEnd _ | .start _ | .resume _ _ | .suspend _ => true
+  | _ => false
+
+/-- **an in-flight call survives everything that is not its own end**: after ANY number of events of other features
+    (`outside`: asyncio-mode use, option switches, mock patches, copies, garbage collections), thread ends and scheduling
+    steps of any task, a call with the key of the in-flight, non-running task `t0` is still answered with `t0` and creates
+    nothing -/
+theorem C12_inflight_survives_outside (fns : List FnDecl) (s : St) (c : Spell) (d : FnDecl) (tup : List KeyElem)
+    (t0 : Nat) (ops : List Op)
+    (hd : fns[c.fn]? = some d) (hk : d.sig.key (effArgs d c) c.kw = .ok tup)
+    (hm : mget s.table { tup := tup, th := c.th, fn := c.fn } = some t0)
+    (hf : ops.all isForeign = true) :
+    mget (finalState fns s ops).table { tup := tup, th := c.th, fn := c.fn } = some t0 ∧
+    ∀ task, (finalState fns s ops).tasks[t0]? = some task → task.running = false →
+      step fns (finalState fns s ops) (.call c) = (finalState fns s ops, .ret t0 false) := by
+  have hcalm : calm fns { tup := tup, th := c.th, fn := c.fn } t0 ops = true := by
+    simp only [calm, List.all_eq_true] at hf ⊢
+    intro op hop
+    have := hf op hop
+    cases op <;> simp_all [isForeign, calmOp]
+  have hkeep := calm_keeps fns _ t0 ops s hm hcalm
+  refine ⟨hkeep, ?_⟩
+  intro task ht hr
+  simp [step, hd, hk, hkeep, ht, hr]
+
+/-- **one decorator object, several functions** (tools.py:420-431): however many functions the objects made by
+    `deduplicate()` / `deduplicate(keygetter=None)` are applied to, in whatever order and grouping, every application
+    hands `DeduplicateDecorator` the keygetter derived from the signature of the function BEING decorated, and the
+    objects are unchanged afterwards (nothing leaks from one application to the next) -/
+theorem C12_keygetter_per_function (objs : List DecoObj) (apps : List (Nat × Sig))
+    (hdef : allDefault objs = true) (hi : ∀ a ∈ apps, a.1 < objs.length) :
+    decorateAll objs apps = (objs, apps.map fun a => some (.ofSig a.2)) := by
+  induction apps with
+  | nil => rfl
+  | cons a r ih =>
+    obtain ⟨i, sg⟩ := a
+    have hlt : i < objs.length := hi (i, sg) (by simp)
+    have ho : objs[i]? = some objs[i] := List.getElem?_eq_getElem hlt
+    have hcap : (objs[i]).captured = none := by
+      simp only [allDefault, List.all_eq_true] at hdef
+      have := hdef objs[i] (List.getElem_mem hlt)
+      simpa [Option.isNone_iff_eq_none] using this
+    have hset : setObj objs i objs[i] = objs := by simp [setObj]
+    have ih' := ih (fun a ha => hi a (by simp [ha]))
+    simp only [decorateAll, ho, DecoObj.apply, hcap, hset, ih', List.map_cons]
+
+/-- the model agrees with itself: with default objects the keygetters of the decoration phase are the `Sig.key` of
+    each function's own signature, which is what `step` uses (`keyFnsAgree`, evaluated by the driver on every case) -/
+theorem C12_decoration_agrees_with_step (objs : List DecoObj) (fns : List FnDecl) (grp : List Nat)
+    (hdef : allDefault objs = true) (hlen : grp.length = fns.length) (hi : ∀ g ∈ grp, g < objs.length) :
+    keyFnsAgree fns (decorateAll objs (grp.zip (fns.map (·.sig)))).2 = true := by
+  have h := C12_keygetter_per_function objs (grp.zip (fns.map (·.sig))) hdef
+    (fun a ha => hi a.1 (List.of_mem_zip ha).1)
+  rw [h]
+  simp only [keyFnsAgree, beq_iff_eq]
+  have : (grp.zip (fns.map (·.sig))).map (fun a => a.2) = fns.map (·.sig) := by
+    rw [← List.unzip_snd, List.unzip_zip_right] <;> simp [hlen]
+  calc (grp.zip (fns.map (·.sig))).map (fun a => some (KeyFn.ofSig a.2))
+      = ((grp.zip (fns.map (·.sig))).map (fun a => a.2)).map (fun sg => some (KeyFn.ofSig sg)) := by simp
+    _ = fns.map fun d => some (KeyFn.ofSig d.sig) := by rw [this]; simp
+
+/-- contrast (NOT the code): a decorator whose application ASSIGNS the default it derived to the captured cell
+    (`nonlocal keygetter`) - the first function it decorates fixes the keygetter of all later ones -/
+def DecoObj.applySticky (o : DecoObj) (s : Sig) : DecoObj × KeyFn :=
+  match o.captured with
+  | some g => (o, g)
+  | none => ({ captured := some (.ofSig s) }, .ofSig s)
+
+def decorateAllSticky (objs : List DecoObj) : List (Nat × Sig) → List DecoObj × List (Option KeyFn)
+  | [] => (objs, [])
+  | (i, s) :: r =>
+    match objs[i]? with
+    | none => let (objs', ks) := decorateAllSticky objs r; (objs', none :: ks)
+    | some o =>
+      let (o', k) := o.applySticky s
+      let (objs', ks) := decorateAllSticky (setObj objs i o') r
+      (objs', some k :: ks)
+
+def sgA : Sig := { pos := [(0, none), (1, some 0)], kwonly := [], varargs := false, varkw := false }
+def sgB : Sig := { pos := [(2, none), (3, some 1), (4, some 2)], kwonly := [], varargs := false, varkw := false }
+
+/-- non-vacuity: one object on two functions gives two different keygetters; two objects in any grouping likewise; the
+    sticky variant does not (and its keygetter conflates `g("s", 0)` with `g("s")`, page default 1, as in seed C12-8) -/
+example :
+    (decorateAll [{ captured := none }] [(0, sgA), (0, sgB)]).2 = [some (.ofSig sgA), some (.ofSig sgB)] ∧
+    (decorateAll [{ captured := none }, { captured := none }] [(1, sgB), (0, sgA), (1, sgA)]).2
+      = [some (.ofSig sgB), some (.ofSig sgA), some (.ofSig sgA)] ∧
+    keyFnsAgree [{ kind := .func, sig := sgA }, { kind := .func, sig := sgB }]
+      (decorateAll [{ captured := none }] [(0, sgA), (0, sgB)]).2 = true ∧
+    (decorateAllSticky [{ captured := none }] [(0, sgA), (0, sgB)]).2 = [some (.ofSig sgA), some (.ofSig sgA)] ∧
+    keyFnsAgree [{ kind := .func, sig := sgA }, { kind := .func, sig := sgB }]
+      (decorateAllSticky [{ captured := none }] [(0, sgA), (0, sgB)]).2 = false ∧
+    sgA.key [7, 0] [] = sgA.key [7] [] ∧ sgB.key [7, 0] [] ≠ sgB.key [7] [] := by
+  decide
+
+/-- non-vacuity of `C12_inflight_survives_outside`: key (1) goes in flight, its body runs and suspends, the function is
+    used in asyncio mode, an option is switched, a thread ends - the next call is answered with task 0; and the observer
+    rejects an `outside` event that changes the table size -/
+def outOps : List Op := [.start 0, .outside 1, .suspend 0, .outside 2, .threadEnd 3, .outside 5]
+
+example :
+    outOps.all isForeign = true ∧
+    (run cexFns St.init (.call (thC 0 1) :: outOps ++ [.call (thC 0 1)])).map (·.res) =
+      [.ret 0 true, .binding { params := [1], rest := [], extra := [] }, .unit, .unit, .unit, .unit, .unit, .ret 0 false] ∧
+    spec cexFns (run cexFns St.init (.call (thC 0 1) :: outOps ++ [.call (thC 0 1)])) = true ∧
+    specClause cexFns [{ op := .call (thC 0 1), res := .ret 0 true, size := 1 }, { op := .outside 1, res := .unit, size := 2 }]
+      = "size@outside" ∧
+    specClause cexFns [{ op := .call (thC 0 1), res := .ret 0 true, size := 1 }, { op := .outside 1, res := .unit, size := 0 }]
+      = "size@outside" ∧
+    specClause cexFns [{ op := .call (thC 0 1), res := .ret 0 true, size := 1 }, { op := .outside 1, res := .unit, size := 1 },
+      { op := .call (thC 0 1), res := .ret 1 true, size := 1 }] = "shared@call" := by
+  decide
 
 end AsynqModel.Dedup
